@@ -19,3 +19,23 @@ def build(reg):
                  "and sets the next target time (verified under C14)",
                  "the norm of the state is a function of the state (two reads without an update in between agree)"],
     )
+
+
+# negative controls (thorough tier): (name, file, old text, new text)
+CONTROLS = [('jump with a 5 ns bracket',
+  'emu_mps/mps_backend_impl.py',
+  'if self.root_finder.is_converged(tolerance=1):',
+  'if self.root_finder.is_converged(tolerance=5):'),
+ ('small negative gaps ignored',
+  'emu_mps/mps_backend_impl.py',
+  '            if self.norm_gap_before_jump < 0:',
+  '            if self.norm_gap_before_jump < -0.01:'),
+ ('bracket starts at the sequence start',
+  'emu_mps/mps_backend_impl.py',
+  '                    start=previous_time,',
+  '                    start=self.target_times[0],'),
+ ('target not reset after a jump',
+  'emu_mps/mps_backend_impl.py',
+  '            self.do_random_quantum_jump()\n'
+  '            self.target_time = self.target_times[self._timestep_index + 1]',
+  '            self.do_random_quantum_jump()')]
